@@ -49,7 +49,7 @@ def toggles(tier):
         ("t_esc_path", ESC),
         ("t_esc_query", ESC),
         ("t_esc_item", ["raw", "letter", "lower-hex"]),
-        ("t_wrap", ["", "left", "right", "tabs", "ctrl-mid", "ctrl-end"]),
+        ("t_wrap", ["", "left", "right", "tabs", "ctrl-mid", "ctrl-end", "ctrl-space-left", "space-ctrl-right"]),
         ("t_dot", ["", "lead-dot", "mid-pair", "lead-empty"]),
     ]
 
@@ -146,4 +146,8 @@ def build(case, toggled=True, extra=None):
         url = url[:i] + "\x00" + url[i:]
     elif w == "ctrl-end":
         url = url + "\x7f\x85"
+    elif w == "ctrl-space-left":
+        url = "\x00 " + url
+    elif w == "space-ctrl-right":
+        url = url + " \x1b"
     return url
